@@ -52,7 +52,10 @@ def run_lines(cmd, lines, extras=False, release=False, args=(), timeout=600):
     b = build(extras, release)
 
     def one(chunk):
-        p = subprocess.run([b, cmd] + list(args), input="\n".join(chunk) + "\n", capture_output=True, text=True, timeout=timeout, errors="replace")
+        try:
+            p = subprocess.run([b, cmd] + list(args), input="\n".join(chunk) + "\n", capture_output=True, text=True, timeout=timeout, errors="replace")
+        except subprocess.TimeoutExpired:
+            raise Inconclusive(f"verif-native {cmd}: no answer within {timeout}s for a batch of {len(chunk)} requests (a native run that does not terminate?)")
         out = p.stdout.split("\n")
         if out and out[-1] == "": out.pop()
         if p.returncode != 0 or len(out) != len(chunk):
